@@ -50,6 +50,9 @@ type loopInfo struct {
 	heapAll bool
 	heapKey map[string]bool
 	hdrSt   *State
+	// for keys modified only by direct stores: the base values (slices / pointers) stored through
+	keyBases   map[string][]ssa.Value
+	keyUnknown map[string]bool
 }
 
 type Frame struct {
@@ -137,7 +140,8 @@ func (fr *Frame) findLoops() {
 	}
 	sort.Slice(headers, func(i, j int) bool { return headers[i].Index < headers[j].Index })
 	for i, h := range headers {
-		li := &loopInfo{ord: i + 1, header: h, blocks: map[*ssa.BasicBlock]bool{h: true}, modCell: map[*ssa.Alloc]bool{}, heapKey: map[string]bool{}}
+		li := &loopInfo{ord: i + 1, header: h, blocks: map[*ssa.BasicBlock]bool{h: true}, modCell: map[*ssa.Alloc]bool{}, heapKey: map[string]bool{},
+			keyBases: map[string][]ssa.Value{}, keyUnknown: map[string]bool{}}
 		// natural loop: all nodes that reach a back-edge source without passing through h
 		var work []*ssa.BasicBlock
 		for _, p := range h.Preds {
@@ -217,7 +221,18 @@ func (fr *Frame) analyseLoopMods(li *loopInfo) {
 					continue
 				}
 				hasCall = true
+				before := map[string]bool{}
+				for k := range li.heapKey {
+					before[k] = true
+				}
 				fr.g.callHeapEffects(x.Common(), li, 0)
+				for k := range li.heapKey {
+					if !before[k] {
+						li.keyUnknown[k] = true
+					}
+				}
+				// keys already present may also be touched by the call: conservatively unknown
+				fr.g.markCallKeysUnknown(x.Common(), li)
 				// pointer args to locals
 				for _, a := range x.Call.Args {
 					if al := rootAlloc(a); al != nil {
@@ -252,11 +267,17 @@ func (fr *Frame) storeKeys(addr ssa.Value, li *loopInfo) {
 		}
 		k, _ := g.fieldKey(pt.Elem(), x.Field)
 		li.heapKey[k] = true
+		if li.keyBases != nil {
+			li.keyBases[k] = append(li.keyBases[k], x.X)
+		}
 	case *ssa.IndexAddr:
 		switch xt := x.X.Type().Underlying().(type) {
 		case *types.Slice:
 			k, _ := g.elemKey(xt.Elem())
 			li.heapKey[k] = true
+			if li.keyBases != nil {
+				li.keyBases[k] = append(li.keyBases[k], x.X)
+			}
 		case *types.Pointer:
 			if _, isFA := x.X.(*ssa.FieldAddr); isFA {
 				fr.storeKeys(x.X, li)
@@ -265,6 +286,9 @@ func (fr *Frame) storeKeys(addr ssa.Value, li *loopInfo) {
 			if at, ok := xt.Elem().Underlying().(*types.Array); ok {
 				k, _ := g.elemKey(at.Elem())
 				li.heapKey[k] = true
+				if li.keyUnknown != nil {
+					li.keyUnknown[k] = true
+				}
 			} else {
 				li.heapAll = true
 			}
@@ -277,11 +301,17 @@ func (fr *Frame) storeKeys(addr ssa.Value, li *loopInfo) {
 				for i := 0; i < st.NumFields(); i++ {
 					k, _ := g.fieldKey(pt.Elem(), i)
 					li.heapKey[k] = true
+					if li.keyUnknown != nil {
+						li.keyUnknown[k] = true
+					}
 				}
 				return
 			}
 			k, _ := g.ptrKey(pt.Elem())
 			li.heapKey[k] = true
+			if li.keyUnknown != nil {
+				li.keyUnknown[k] = true
+			}
 			return
 		}
 		li.heapAll = true
@@ -518,7 +548,26 @@ func (fr *Frame) enterLoop(li *loopInfo, st *State) *State {
 		}
 		sort.Strings(keys)
 		for _, k := range keys {
-			ns.heap.set(k, g.declare("lhp", g.heapSorts[k]))
+			oldv := ns.heap.get(g, k)
+			nv := g.declare("lhp", g.heapSorts[k])
+			ns.heap.set(k, nv)
+			if refs, ok := fr.loopStoreRefs(li, k, ns); ok {
+				// only objects reached through these (loop-invariant) bases are written: everything else keeps its value
+				r := g.fresh("lr")
+				var cs []string
+				for _, ref := range refs {
+					cs = append(cs, "(not (= "+r+" "+ref+"))")
+				}
+				g.assume("(forall ((" + r + " Int)) (! (=> " + and(cs...) + " (= (select " + nv + " " + r + ") (select " + oldv + " " + r + "))) :pattern ((select " + nv + " " + r + "))))")
+			}
+		}
+	}
+	// pointers held in havocked locals refer to objects that exist at the loop head
+	for _, a := range allocs {
+		if c := fr.cells[a]; c != nil {
+			if v, live := ns.cells[c]; live && strings.HasPrefix(v, "lh_") {
+				g.knownRef(ns, v, c.t)
+			}
 		}
 	}
 	// 3. the function's frame (assigns clause) is an implicit loop invariant
@@ -536,6 +585,50 @@ func (fr *Frame) enterLoop(li *loopInfo, st *State) *State {
 	}
 	li.hdrSt = ns
 	return ns
+}
+
+// loopStoreRefs: if key k is modified in the loop only by direct stores through bases that do not change in the
+// loop, return the reference terms of those bases.
+func (fr *Frame) loopStoreRefs(li *loopInfo, k string, ns *State) ([]string, bool) {
+	if li.keyUnknown[k] || len(li.keyBases[k]) == 0 {
+		return nil, false
+	}
+	var refs []string
+	for _, b := range li.keyBases[k] {
+		var term string
+		var t types.Type = b.Type()
+		switch x := b.(type) {
+		case *ssa.UnOp:
+			a, ok := x.X.(*ssa.Alloc)
+			if !ok || li.modCell[a] {
+				return nil, false
+			}
+			c := fr.cells[a]
+			if c == nil {
+				return nil, false
+			}
+			v, live := ns.cells[c]
+			if !live {
+				return nil, false
+			}
+			term = v
+		default:
+			if in, ok := b.(ssa.Instruction); ok && li.blocks[in.Block()] {
+				return nil, false
+			}
+			rv, ok := fr.regs[b]
+			if !ok || rv.S == "" {
+				return nil, false
+			}
+			term = rv.S
+		}
+		if _, isSlice := t.Underlying().(*types.Slice); isSlice {
+			refs = append(refs, "(sl_ref "+term+")")
+		} else {
+			refs = append(refs, term)
+		}
+	}
+	return refs, true
 }
 
 func (fr *Frame) closeLoop(li *loopInfo, st *State) {
@@ -664,7 +757,15 @@ func (g *Gen) allocRef(st *State) string {
 
 // knownRef records that pointer value v existed before any later allocation.
 func (g *Gen) knownRef(st *State, v string, t types.Type) {
-	switch t.Underlying().(type) {
+	switch u := t.Underlying().(type) {
+	case *types.Struct:
+		for i := 0; i < u.NumFields(); i++ {
+			ft := u.Field(i).Type()
+			switch ft.Underlying().(type) {
+			case *types.Pointer, *types.Slice, *types.Struct:
+				g.knownRef(st, g.S.structField(t, v, i), ft)
+			}
+		}
 	case *types.Pointer:
 		g.assumeUnder(st.path, "(<= "+v+" "+st.heap.get(g, g.topKey())+")")
 	case *types.Slice:
